@@ -8,7 +8,9 @@ cd "$(dirname "$0")/.." || exit 2
 missed=0
 for d in seeded/*/; do
   name=$(basename "$d")
-  prop=$(python3 -c "import json,sys; print(json.load(open('$d/meta.json'))['breaks_property'])" 2>/dev/null)
+  # (regress_property: the check to expect an alarm from, where later repairs of /repo have
+  # masked the change's effect on the property it was written against)
+  prop=$(python3 -c "import json,sys; m=json.load(open('$d/meta.json')); print(m.get('regress_property') or m['breaks_property'])" 2>/dev/null)
   [ -z "$prop" ] && prop=$(echo "$name" | cut -c1-3 | tr a-z A-Z)
   if python3 -c "import json,sys; sys.exit(0 if 'retired' in json.load(open('$d/meta.json')) else 1)" 2>/dev/null; then echo "$name: retired (see meta.json)"; continue; fi
   if ! git -C "$REPO" apply "$PWD/$d/patch.diff" 2>/dev/null; then echo "$name: patch no longer applies to /repo HEAD"; continue; fi
